@@ -1,3 +1,4 @@
+mod css;
 mod path;
 mod probe;
 mod util;
@@ -11,6 +12,8 @@ fn main() {
     let seed: u64 = args.get(3).and_then(|s| s.parse().ok()).unwrap_or(1);
     let mut out = util::Out::new();
     match cmd {
+        "css" => css::run(tier, seed, &mut out),
+        "cssone" => css::run_one(&mut out),
         "path" => path::run(tier, seed, &mut out),
         "probe" => probe::run(&args[2..]),
         _ => {
